@@ -94,3 +94,8 @@ add('C11', 'exploration', 'Go race detector + result/isolation/image monitors un
     'A race-instrumented build runs 2-12 mocker goroutines (own builders, disjoint targets) against 2-24 caller goroutines on steadily mocked, page-sharing functions for several rounds and processes; race reports are collected from the detector log and de-duplicated, every steady call and every mocker-side effect is checked, and the whole image must be pristine at quiescence; the workload is repeated on a plain build at higher speed. Schedules are sampled; the evidence counts steady calls that began while a writer was inside goom.',
     'Steady callbacks that call the origin placeholder return origin|marker so that the recorded C03 re-entry finding cannot surface here; schedules are those 16 cores produce.',
     'DESIGN.md 2 C11')
+
+add('C19', 'exploration', 'transcript differ across logging configurations (separate processes, one seed)',
+    'A deterministic scenario suite covering callbacks (incl. variadic and 13-parameter targets), conditional and sequenced stubs, method and interface mocks, panics and values that are hostile to rendering (nil/typed-nil, pointer cycles, unexported fields, panicking String/Error) is executed under five logging configurations in separate processes; every call, argument, result and panic goes to a transcript and the transcripts must be byte-identical. Scenarios are sampled from the seed; the logging configurations are enumerated.',
+    'Self-containing maps/slices (which make fmt itself recurse) are not generated; transcripts contain values only, no addresses.',
+    'DESIGN.md 2 C19')
